@@ -13,7 +13,7 @@ func TestC06(t *testing.T) {
 	mon.Main(t, mon.Check{
 		ID:    "C06",
 		Level: "exploration",
-		Rule:  "real gbn code in virtual time; a fault prefix (random per-packet drop/dup/delay for 5..120 virtual s, or scripted tail loss: the first transmission of the last packet of a burst is dropped and the application then goes silent) is followed by a reliable link whose latency is below the resend timeout. Families: random (as C01), tail-loss, and resend-timeout >= peer ping interval. Oracles in virtual time: (stall) at the horizon (fault end + 2h) with both ends open and an accepted message undelivered, nothing was delivered during the last 20 resend timeouts; (closure) with keepalive off no endpoint ever closes by itself; with keepalive on, once one end has closed the other end's calls fail too (all application goroutines return before the horizon); (quiescence) after everything was delivered, 10 resend timeouts (>=30 s) of observation show no non-ping DATA packet on either link and no growth of the resend timeout. A merely slow run (still delivering at the horizon) is inconclusive, not a violation. A bubble that freezes (clock cannot advance) is repeated on the real clock and judged by the two-census mutex rule: gbn goroutines waiting for a lock for more than 5 s are an internal deadlock, i.e. a stall that nothing will end. Non-trivial = at least one packet fault and one delivered message; distinct = wire-trace hash.",
+		Rule:  "real gbn code in virtual time; a fault prefix (random per-packet drop/dup/delay for 5..120 virtual s, or scripted tail loss: the first transmission of the last packet of a burst is dropped and the application then goes silent) is followed by a reliable link whose latency is below the resend timeout. Families: random (as C01), tail-loss, and resend-timeout >= peer ping interval. Oracles in virtual time: (stall) at the horizon (fault end + 2h) with both ends open and an accepted message undelivered, nothing was delivered during the last 20 resend timeouts (or: a Send call still blocked and nothing delivered for the last 30 virtual minutes); (closure) with keepalive off no endpoint ever closes by itself; with keepalive on, once one end has closed the other end's calls fail too (all application goroutines return before the horizon); (quiescence) after everything was delivered, 10 resend timeouts (>=30 s) of observation show no non-ping DATA packet on either link and no growth of the resend timeout. A merely slow run (still delivering at the horizon) is inconclusive, not a violation. A bubble that freezes (clock cannot advance) is repeated on the real clock and judged by the two-census mutex rule: gbn goroutines waiting for a lock for more than 5 s are an internal deadlock, i.e. a stall that nothing will end. Non-trivial = at least one packet fault and one delivered message; distinct = wire-trace hash.",
 		Assumptions: []string{
 			"unbounded eventually is restated as bounded progress on the virtual clock",
 			"transport preserves per-direction order; faults start after a clean handshake",
@@ -165,14 +165,27 @@ func runC06(c *mon.Case) {
 			rtNow = r.StateS.ResendTimeout
 		}
 		window := 20 * rtNow
+		// A sender that is blocked inside Send holds pending data too. To
+		// tell "blocked for ever" from "slow" (a static resend timeout
+		// below the link's round trip makes every packet take several
+		// sync waits) the silence must then have lasted at least half an
+		// hour of virtual time.
+		blocked := r.BlockedSendA || r.BlockedSendB
+		blockedOnly := false
+		if pending == 0 && blocked {
+			if window < 30*time.Minute {
+				window = 30 * time.Minute
+			}
+			pending, blockedOnly = 1, true
+		}
 		switch {
 		case closed && keepalive:
 			c.Shard.Violate("peer-not-notified|"+family,
 				fmt.Sprintf("one endpoint closed itself (client %v, server %v) but some Send/Recv caller of the other was still blocked at the horizon %v [%s]", r.DoneC, r.DoneS, r.Elapsed, sc.Conf.String()), rep())
 		case !closed && pending > 0 && r.Elapsed-last > window:
 			c.Shard.Violate("stall|"+family,
-				fmt.Sprintf("silent stall: both ends open, %d accepted message(s) undelivered (a: %d/%d, b: %d/%d), last delivery at %v, horizon %v, resend timeout %v [%s]",
-					pending, delA, accA, delB, accB, last, r.Elapsed, rtNow, sc.Conf.String()), rep())
+				fmt.Sprintf("silent stall: both ends open, %s (delivered/accepted a: %d/%d, b: %d/%d), last delivery at %v, horizon %v, resend timeout %v [%s]",
+					map[bool]string{true: "a Send call is blocked and nothing has been delivered since", false: fmt.Sprintf("%d accepted message(s) undelivered", pending)}[blockedOnly], delA, accA, delB, accB, last, r.Elapsed, rtNow, sc.Conf.String()), rep())
 		default:
 			c.Shard.Inconc(fmt.Sprintf("case %d still progressing at the horizon (last delivery %v, horizon %v)", c.Idx, last, r.Elapsed))
 		}
